@@ -3,6 +3,8 @@ package main
 // Discharging obligations: solvers are raced per obligation.
 
 import (
+	"crypto/sha256"
+	"encoding/hex"
 	"fmt"
 	"regexp"
 	"bytes"
@@ -148,12 +150,66 @@ func firstLine(s string) string {
 }
 
 type job struct {
-	ob   *Obligation
-	path string
-	res  SolveResult
+	ob     *Obligation
+	path   string
+	res    SolveResult
+	sliced string
+}
+
+// result cache keyed by the exact obligation text (and the tier's timeout class): VC generation always runs from
+// /repo's current source; only the solver's verdict on an identical script is reused.
+var cacheDir = ""
+
+func cacheKey(smt string) string {
+	h := sha256.Sum256([]byte(smt))
+	return hex.EncodeToString(h[:])
+}
+
+func cacheGet(smt string) (SolveResult, bool) {
+	if cacheDir == "" {
+		return SolveResult{}, false
+	}
+	b, err := os.ReadFile(cacheDir + "/" + cacheKey(smt))
+	if err != nil {
+		return SolveResult{}, false
+	}
+	f := strings.SplitN(strings.TrimSpace(string(b)), " ", 3)
+	if len(f) < 3 || f[0] != "unsat" {
+		return SolveResult{}, false
+	}
+	var t float64
+	fmt.Sscan(f[2], &t)
+	return SolveResult{Status: "unsat", Solver: f[1], TimeS: t}, true
+}
+
+func cachePut(smt string, r SolveResult) {
+	if cacheDir == "" || r.Status != "unsat" {
+		return
+	}
+	os.MkdirAll(cacheDir, 0o755)
+	os.WriteFile(cacheDir+"/"+cacheKey(smt), []byte(fmt.Sprintf("unsat %s %.3f\n", strings.ReplaceAll(r.Solver, " ", "_"), r.TimeS)), 0o644)
 }
 
 func solveAll(jobs []*job, timeoutS int, cross bool, workers int) {
+	var uncached []*job
+	for _, j := range jobs {
+		if r, ok := cacheGet(j.ob.SMT); ok && !j.ob.MustSat && !cross {
+			r.Solver += "(cached)"
+			j.res = r
+			os.WriteFile(j.path, []byte(j.ob.SMT), 0o644)
+			continue
+		}
+		uncached = append(uncached, j)
+	}
+	solveAll1(uncached, timeoutS, cross, workers)
+	for _, j := range uncached {
+		if !j.ob.MustSat {
+			cachePut(j.ob.SMT, j.res)
+		}
+	}
+}
+
+func solveAll1(jobs []*job, timeoutS int, cross bool, workers int) {
 	// phase 1: every obligation gets one short attempt with z3-new, all cores busy
 	var hard []*job
 	var mu sync.Mutex
@@ -171,6 +227,19 @@ func solveAll(jobs []*job, timeoutS int, cross bool, workers int) {
 			j.res = runSolver(context.Background(), solvers[0], j.path, 2)
 			return
 		}
+		// first attempt: the relevance-sliced script (unsat there is conclusive; anything else is not)
+		if sl, ok := sliceSMT(j.ob.SMT); ok {
+			j.sliced = sl
+			sp := strings.TrimSuffix(j.path, ".smt2") + ".sliced.smt2"
+			if os.WriteFile(sp, []byte(sl), 0o644) == nil {
+				r := runSolver(context.Background(), solvers[0], sp, min(3, timeoutS))
+				if r.Status == "unsat" {
+					r.Solver += "+sliced"
+					j.res = r
+					return
+				}
+			}
+		}
 		if (j.ob.Kind == "inv-pres" || j.ob.Kind == "post") && fitsRe.MatchString(j.ob.SMT) {
 			j.res = SolveResult{Status: "unknown"}
 		} else {
@@ -183,8 +252,24 @@ func solveAll(jobs []*job, timeoutS int, cross bool, workers int) {
 		}
 	})
 	// phase 2: the rest is raced on all three solvers, few at a time so that each solver gets a core
+	if os.Getenv("GOVC_TIMING") != "" {
+		fmt.Fprintf(os.Stderr, "%s phase1 done, %d hard\n", time.Now().Format("15:04:05"), len(hard))
+	}
 	// phase 2a: case split on the "append fits in place" conditions (each case is much easier for the solvers'
 	// quantifier instantiation than the ite-merged heap); all cases unsat <=> the obligation is unsat
+	// phase 2a: a short race of all solver configurations
+	var hard2 []*job
+	runPool(hard, max(1, workers/len(solvers)), func(j *job) {
+		r := raceSolvers(j.path, min(4, timeoutS))
+		if r.Status == "unsat" || r.Status == "sat" {
+			j.res = r
+			return
+		}
+		mu.Lock()
+		hard2 = append(hard2, j)
+		mu.Unlock()
+	})
+	hard = hard2
 	var harder []*job
 	runPool(hard, max(1, workers/2), func(j *job) {
 		if r, ok := splitSolve(j, timeoutS); ok {
@@ -195,6 +280,9 @@ func solveAll(jobs []*job, timeoutS int, cross bool, workers int) {
 		harder = append(harder, j)
 		mu.Unlock()
 	})
+	if os.Getenv("GOVC_TIMING") != "" {
+		fmt.Fprintf(os.Stderr, "%s phase2a done, %d harder\n", time.Now().Format("15:04:05"), len(harder))
+	}
 	// phase 2b: the rest is raced on all solver configurations, few at a time so that each gets a core
 	runPool(harder, max(1, workers/len(solvers)), func(j *job) {
 		j.res = raceSolvers(j.path, timeoutS)
@@ -217,42 +305,53 @@ func solveAll(jobs []*job, timeoutS int, cross bool, workers int) {
 	}
 }
 
-var fitsRe = regexp.MustCompile(`\(define-fun (fits![0-9]+) \(\) Bool`)
+var fitsRe = regexp.MustCompile(`\(define-fun ((?:fits|dg)![0-9]+) \(\) Bool`)
 
-// splitSolve: case analysis over the fits!N symbols defined in the script (at most 3)
+// splitSolve: recursive case analysis over the fits!N symbols defined in the script: try to discharge the
+// obligation under the current partial assignment; if that does not succeed quickly, split on the next symbol.
 func splitSolve(j *job, timeoutS int) (SolveResult, bool) {
 	ms := fitsRe.FindAllStringSubmatch(j.ob.SMT, -1)
-	if len(ms) == 0 || len(ms) > 3 {
+	if len(ms) == 0 {
 		return SolveResult{}, false
 	}
-	start := time.Now()
-	total := 0.0
-	for mask := 0; mask < 1<<len(ms); mask++ {
-		var extra strings.Builder
-		for i, m := range ms {
-			if mask&(1<<i) != 0 {
-				extra.WriteString("(assert " + m[1] + ")\n")
-			} else {
-				extra.WriteString("(assert (not " + m[1] + "))\n")
-			}
-		}
-		smt := strings.Replace(j.ob.SMT, "(check-sat)", extra.String()+"(check-sat)", 1)
-		path := strings.TrimSuffix(j.path, ".smt2") + fmt.Sprintf(".case%d.smt2", mask)
-		if err := os.WriteFile(path, []byte(smt), 0o644); err != nil {
-			return SolveResult{}, false
-		}
-		r := runSolver(context.Background(), solvers[0], path, timeoutS)
-		if r.Status != "unsat" {
-			r2 := runSolver(context.Background(), solvers[3], path, timeoutS)
-			if r2.Status != "unsat" {
-				return SolveResult{}, false
-			}
-			r = r2
-		}
-		total += r.TimeS
+	if len(ms) > 7 {
+		ms = ms[len(ms)-7:] // the most recent case distinctions are the ones closest to the goal
 	}
-	_ = start
-	return SolveResult{Status: "unsat", Solver: "z3-new+case-split", TimeS: total}, true
+	total := 0.0
+	cases := 0
+	deadline := time.Now().Add(time.Duration(timeoutS*3) * time.Second)
+	var rec func(depth int, extra string) bool
+	rec = func(depth int, extra string) bool {
+		if time.Now().After(deadline) {
+			return false
+		}
+		smt := strings.Replace(j.ob.SMT, "(check-sat)", extra+"(check-sat)", 1)
+		cases++
+		path := strings.TrimSuffix(j.path, ".smt2") + fmt.Sprintf(".case%d.smt2", cases)
+		if err := os.WriteFile(path, []byte(smt), 0o644); err != nil {
+			return false
+		}
+		t := timeoutS
+		if depth < len(ms) {
+			t = min(timeoutS, 3) // inner nodes: a short attempt only
+		}
+		r := runSolver(context.Background(), solvers[0], path, t)
+		total += r.TimeS
+		if r.Status == "unsat" {
+			return true
+		}
+		if depth == len(ms) {
+			r2 := runSolver(context.Background(), solvers[3], path, timeoutS)
+			total += r2.TimeS
+			return r2.Status == "unsat"
+		}
+		sym := ms[depth][1]
+		return rec(depth+1, extra+"(assert "+sym+")\n") && rec(depth+1, extra+"(assert (not "+sym+"))\n")
+	}
+	if rec(0, "") {
+		return SolveResult{Status: "unsat", Solver: fmt.Sprintf("z3-new+case-split(%d)", cases), TimeS: total}, true
+	}
+	return SolveResult{}, false
 }
 
 func runPool(jobs []*job, workers int, f func(*job)) {
